@@ -6,7 +6,7 @@ name=$1; tier=$2; shift 2
 wt=$(mktemp -d /tmp/mutrun-XXXXXX); rmdir $wt
 git -C /repo worktree add -q --detach $wt HEAD || exit 2
 trap 'git -C /repo worktree remove --force $wt 2>/dev/null; rm -rf $wt $wt.ev' EXIT
-git -C $wt apply /verif/seeded/$name/patch.diff || { echo "patch does not apply"; exit 2; }
+git -C $wt apply /verif/seeded/$name/patch.diff 2>/dev/null || (cd $wt && patch -s -p1 -F3 < /verif/seeded/$name/patch.diff) || { echo "patch does not apply"; exit 2; }
 cd /verif
 for p in "$@"; do
   out=$(VERIF_REPO=$wt VERIF_DIR=/verif VERIF_EVIDENCE_DIR=$wt.ev ${VCHECK:-bin/vcheck} $p --tier $tier 2>&1); rc=$?
